@@ -288,6 +288,11 @@ METACLASS_NAMES = ["__call__", "mro", "register", "__instancecheck__", "__subcla
 
 def specs(w, avoid_copy_shadow: bool = False):
     rng = w.rng
+    # The PLAN (which programs exist, in which order) is drawn from a stream that is the same in every shard: the running index
+    # ``idx`` must mean the same program everywhere, otherwise programs fall between the shards. Only the CONTENT of a program
+    # comes from the shard's own stream.
+    import random as _random  # pylint: disable=import-outside-toplevel
+    plan = _random.Random("C04-plan/{}/{}".format(w.tier, getattr(w, "seed", 0)))
     thorough = w.tier == "thorough"
     shapes = gen.dag_shapes(1) + gen.dag_shapes(2) + gen.dag_shapes(3)
     shapes4 = gen.dag_shapes(4)
@@ -295,10 +300,10 @@ def specs(w, avoid_copy_shadow: bool = False):
     idx = 0
     rounds = 10 if thorough else 3
     for rnd in range(rounds):
-        pool = shapes + (shapes4 if thorough else rng.sample(shapes4, 30))
+        pool = shapes + (shapes4 if thorough else plan.sample(shapes4, 30))
         for shape in pool:
-            for kind in (kinds if len(shape) <= 3 else rng.sample(kinds, 3)):
-                for is_async in ((False, True) if kind == "method" and rng.random() < 0.5 else (False,)):
+            for kind in (kinds if len(shape) <= 3 else plan.sample(kinds, 3)):
+                for is_async in ((False, True) if kind == "method" and plan.random() < 0.5 else (False,)):
                     for variant in range(3 if len(shape) >= 2 else 2):
                         idx += 1
                         if idx % w.nshards != w.shard:
